@@ -246,7 +246,29 @@ pub struct ReplayStats {
 }
 
 /// real-only assertions that belong to a property (things the model cannot see)
+/// the same case with every node of the grammar cloned at construction (the original dropped): the combinators'
+/// Clone impls must reproduce every setting (bounds, flags, operator tables)
+fn clone_built_differs(case: &Case, real: &Obs) -> Option<String> {
+    if real.panic.is_some() || matches!(case.kind.as_str(), "static" | "staticc") {
+        return None;
+    }
+    crate::build::CLONE_NODES.with(|c| c.set(true));
+    let o = run_case_as(case, &case.kind, &case.ety, &case.mode);
+    crate::build::CLONE_NODES.with(|c| c.set(false));
+    let o = o.ok()?;
+    if o.ok != real.ok || o.out != real.out || o.errs != real.errs {
+        return Some(format!("a parser built from clones of its parts behaves differently: accepts={} out={} errs={:?} vs accepts={} out={} errs={:?}",
+            o.ok, o.out, o.errs, real.ok, real.out, real.errs));
+    }
+    None
+}
+
 pub fn real_asserts(prop: &str, case: &Case, real: &Obs, all: &dyn Fn(&str, &str, &str) -> Option<Obs>) -> Option<String> {
+    if matches!(prop, "C02" | "C09" | "C15" | "C08") {
+        if let Some(e) = clone_built_differs(case, real) {
+            return Some(e);
+        }
+    }
     match prop {
         "C03" => {
             // output/error consistency of the real ParseResult
